@@ -85,6 +85,24 @@ func c06(r *core.Run) {
 	c06RegistrationAccepts(r, ro)
 	c06PrefixBoundary(r)
 	c06GroupTags(r, root, ro)
+	// ---- R1 --------------------------------------------------------------
+	c06Specificity(r, "R1", ro)
+
+	// ---- R2 --------------------------------------------------------------
+	c06Units(r, "R2", root, ro, false)
+
+	// ---- R3 --------------------------------------------------------------
+	c06Registration(r, root, ro)
+
+	// ---- R4 --------------------------------------------------------------
+	c06MatchAssembly(r, "R4", root, ro)
+}
+
+// c06Specificity holds the obligations of C06.R1 (specificity order and
+// backtracking of the trie matcher); C05 re-uses them (rule M4): the handler a
+// request is dispatched to is the one of the pattern the matcher selects.
+func c06Specificity(r *core.Run, rule string, ro *muxRoles) {
+	p := r.P
 	mn := ro.matchNode
 	nodeNodes, nodeParam, nodeWild := ro.nodeNodes, ro.nodeParam, ro.nodeWild
 
@@ -112,7 +130,7 @@ func c06(r *core.Run) {
 		}
 	}
 	if len(lit) == 0 || len(par) == 0 || len(wild) == 0 {
-		r.Bad("R1", "matchNode", "three-candidate-kinds", p.Pos(mn.Pos()), fmt.Sprintf("literal=%d placeholder=%d wildcard=%d candidate reads", len(lit), len(par), len(wild)))
+		r.Bad(rule, "matchNode", "three-candidate-kinds", p.Pos(mn.Pos()), fmt.Sprintf("literal=%d placeholder=%d wildcard=%d candidate reads", len(lit), len(par), len(wild)))
 		return
 	}
 	orderOK := true
@@ -142,7 +160,7 @@ func c06(r *core.Run) {
 			}
 		}
 	}
-	r.Check(orderOK, "R1", "matchNode", "order:literal->placeholder->wildcard", p.Pos(mn.Pos()), "candidates are read in specificity order with no path backwards", why)
+	r.Check(orderOK, rule, "matchNode", "order:literal->placeholder->wildcard", p.Pos(mn.Pos()), "candidates are read in specificity order with no path backwards", why)
 	// the candidate variable: phi whose loop-entry edge is the literal and back edge the placeholder
 	for _, b := range mn.Blocks {
 		for _, in := range b.Instrs {
@@ -168,7 +186,7 @@ func c06(r *core.Run) {
 					first = desc
 				}
 			}
-			r.Check(first == "literal" && later == "placeholder", "R1", "matchNode", "candidate-phi:first=literal,then=placeholder", p.InstrPos(phi), "the first round tests the literal child, the second the placeholder child", "candidate rounds are first="+first+" then="+later)
+			r.Check(first == "literal" && later == "placeholder", rule, "matchNode", "candidate-phi:first=literal,then=placeholder", p.InstrPos(phi), "the first round tests the literal child, the second the placeholder child", "candidate rounds are first="+first+" then="+later)
 		}
 	}
 	// recursion
@@ -194,26 +212,18 @@ func c06(r *core.Run) {
 							cont = true
 						}
 					}
-					r.Check(retTrue && cont, "R1", "matchNode", "recursive-result:true->return-true,false->next-candidate", p.InstrPos(x), "a failed deeper match falls through to the less specific candidate (backtracking)", fmt.Sprintf("recursive match handling broken: trueEdgeReturnsTrue=%v falseEdgeContinues=%v", retTrue, cont))
+					r.Check(retTrue && cont, rule, "matchNode", "recursive-result:true->return-true,false->next-candidate", p.InstrPos(x), "a failed deeper match falls through to the less specific candidate (backtracking)", fmt.Sprintf("recursive match handling broken: trueEdgeReturnsTrue=%v falseEdgeContinues=%v", retTrue, cont))
 				case *ssa.Return:
-					r.Bad("R1", "matchNode", "no-unconditional-return-of-recursion", p.InstrPos(x), "the recursive result is returned directly: a failed literal branch would not fall back to the placeholder/wildcard sibling")
+					r.Bad(rule, "matchNode", "no-unconditional-return-of-recursion", p.InstrPos(x), "the recursive result is returned directly: a failed literal branch would not fall back to the placeholder/wildcard sibling")
 				}
 			}
 		}
 		if !tested {
-			r.Bad("R1", "matchNode", "recursive-result-tested", p.InstrPos(c), "the recursive match's result is not branched on")
+			r.Bad(rule, "matchNode", "recursive-result-tested", p.InstrPos(c), "the recursive match's result is not branched on")
 		}
 	}
-	r.Check(nRec >= 1, "R1", "matchNode", "recurses", p.Pos(mn.Pos()), "descends token by token", "matchNode does not recurse")
+	r.Check(nRec >= 1, rule, "matchNode", "recurses", p.Pos(mn.Pos()), "descends token by token", "matchNode does not recurse")
 
-	// ---- R2 --------------------------------------------------------------
-	c06Units(r, root, ro)
-
-	// ---- R3 --------------------------------------------------------------
-	c06Registration(r, root, ro)
-
-	// ---- R4 --------------------------------------------------------------
-	c06MatchAssembly(r, "R4", root, ro)
 }
 
 // c06MatchAssembly holds the obligations of C06.R4; C01 re-uses them (rule
@@ -344,9 +354,12 @@ func c06MatchAssembly(r *core.Run, rule string, root []*ssa.Function, ro *muxRol
 	}
 }
 
-func c06Units(r *core.Run, root []*ssa.Function, ro *muxRoles) {
+// c06Units checks the units rule for mount-relative indexes under `rule`. With
+// groupOnly (C01.F4) only the reads of the group-tag index are checked: the
+// group evaluator uses it as nothing but an index into the rebased tokens.
+func c06Units(r *core.Run, rule string, root []*ssa.Function, ro *muxRoles, groupOnly bool) {
 	p := r.P
-	isIdxField := func(f core.Field) bool { return f == ro.ppIdx || f == ro.gpIdx }
+	isIdxField := func(f core.Field) bool { return (f == ro.ppIdx && !groupOnly) || f == ro.gpIdx }
 	isMountIndex := func(v ssa.Value) bool {
 		switch x := v.(type) {
 		case *ssa.Parameter:
@@ -432,16 +445,16 @@ func c06Units(r *core.Run, root []*ssa.Function, ro *muxRoles) {
 							}
 						}
 						rebasedRead[ac.F.Struct] = true
-						r.Check(isMountIndex(other) && usedAsIndex, "R2", fn, "read("+label(ac.F)+")+mountIndex->index", p.InstrPos(x), "rebased by the mount index before indexing the token slice", "index field is added to "+valDesc(other)+" (not a mount index) or the sum is not used as an index")
+						r.Check(isMountIndex(other) && usedAsIndex, rule, fn, "read("+label(ac.F)+")+mountIndex->index", p.InstrPos(x), "rebased by the mount index before indexing the token slice", "index field is added to "+valDesc(other)+" (not a mount index) or the sum is not used as an index")
 					case token.EQL, token.NEQ:
 						other := x.Y
 						if other == v {
 							other = x.X
 						}
 						f, ok := core.LoadedField(other)
-						r.Check(ok && isIdxField(f), "R2", fn, "read("+label(ac.F)+")-compared-with-same-unit", p.InstrPos(x), "compared with another mount-relative index", "mount-relative index compared with "+valDesc(other))
+						r.Check(ok && isIdxField(f), rule, fn, "read("+label(ac.F)+")-compared-with-same-unit", p.InstrPos(x), "compared with another mount-relative index", "mount-relative index compared with "+valDesc(other))
 					default:
-						r.Bad("R2", fn, "read("+label(ac.F)+")-arith", p.InstrPos(x), "mount-relative index used in arithmetic "+x.Op.String())
+						r.Bad(rule, fn, "read("+label(ac.F)+")-arith", p.InstrPos(x), "mount-relative index used in arithmetic "+x.Op.String())
 					}
 				case *ssa.IndexAddr:
 					// direct index: the indexed slice must be a parameter that every caller re-slices at a mount index (or passes nil)
@@ -472,11 +485,14 @@ func c06Units(r *core.Run, root []*ssa.Function, ro *muxRoles) {
 							}
 						}
 					}
-					r.Check(good, "R2", fn, "read("+label(ac.F)+")-indexes-rebased-slice", p.InstrPos(x), "indexes a token slice that every caller re-slices at the mount index (or nil)", "mount-relative index applied to a slice that is not rebased by all callers")
+					r.Check(good, rule, fn, "read("+label(ac.F)+")-indexes-rebased-slice", p.InstrPos(x), "indexes a token slice that every caller re-slices at the mount index (or nil)", "mount-relative index applied to a slice that is not rebased by all callers")
 				case *ssa.Store, *ssa.DebugRef, *ssa.MakeInterface:
 				}
 			}
 		case "store":
+			if groupOnly {
+				continue
+			}
 			st := ac.Instr.(*ssa.Store)
 			bo, ok := st.Val.(*ssa.BinOp)
 			good := ok && bo.Op == token.SUB && isMountIndex(bo.Y)
@@ -490,7 +506,7 @@ func c06Units(r *core.Run, root []*ssa.Function, ro *muxRoles) {
 			if ac.Fn == ro.parseGroup {
 				wfn = "<group-parser>" // role label: keeps the known finding's key stable under renaming
 			}
-			r.Check(good, "R2", wfn, "write("+label(ac.F)+")=tokenIndex-mountIndex", p.InstrPos(st), "stored relative to the mount point", "index written as "+valDesc(st.Val)+" (a raw pattern token index) although it is read against mount-rebased tokens: a handler registered through a parent mux across a mount point gets the wrong token or an index-out-of-range panic")
+			r.Check(good, rule, wfn, "write("+label(ac.F)+")=tokenIndex-mountIndex", p.InstrPos(st), "stored relative to the mount point", "index written as "+valDesc(st.Val)+" (a raw pattern token index) although it is read against mount-rebased tokens: a handler registered through a parent mux across a mount point gets the wrong token or an index-out-of-range panic")
 		}
 	}
 }
